@@ -46,6 +46,24 @@ pub fn prog(file: S, impls: &S) -> S {
     tagged("prog", vec![file, impls.clone()])
 }
 
+/// the SURFACE program (every file of every package, as parsed and lowered by the repository's own
+/// front end): `STAGE src` = after derive expansion (what the rest of the pipeline is given),
+/// `SRCPLAIN` = before it (`same` when the project uses no derive)
+pub fn dump_src(id: &str, entry: &std::path::Path, src: &str, out: &mut String) {
+    match crate::astdump::project(entry, src) {
+        Ok((plain, expanded)) => {
+            let (pt, et) = (plain.to_text(), expanded.to_text());
+            writeln!(out, "{}\tSTAGE\tsrc\t{}", id, et).unwrap();
+            if pt == et {
+                writeln!(out, "{}\tSRCPLAIN\tsame", id).unwrap();
+            } else {
+                writeln!(out, "{}\tSRCPLAIN\t{}", id, pt).unwrap();
+            }
+        }
+        Err(e) => writeln!(out, "{}\tSRCERR\t{}", id, crate::sexp::esc_line(&e)).unwrap(),
+    }
+}
+
 pub fn dump_case(id: &str, c: &compiler::pipeline::pipeline::Compilation, out: &mut String) {
     let impls = impls_table(&c.genv);
     writeln!(out, "{}\tSTAGE\tcore\t{}", id, prog(dump::core_file(&c.core), &impls).to_text()).unwrap();
@@ -100,7 +118,18 @@ fn multi_package_project(i: usize) -> (Vec<(String, String)>, String) {
         _ => "let x = Lib::Shape::Box(1, 2); string_println(Lib::twice(x))".to_string(),
     };
     let extra = if two { "\n    string_println(int32_to_string(Lib::via_base(5)) + Lib::base_name());" } else { "" };
-    let main = format!("package Main\nimport Lib\n\nfn main() {{\n    {};{}\n    ()\n}}\n", body, extra);
+    // every third project: Main declares items spelled like Lib's (an enum with the variants in the
+    // other order, a struct with other fields, a function, an impl of Lib's trait for its own type)
+    let clash = i % 3 == 2;
+    let (decls, clash_body) = if clash {
+        (
+            "enum Shape { Box(int32, int32), Dot }\n\nstruct Pebble { extra: int32, w: int32 }\n\nfn area(s: Shape) -> int32 { match s { Shape::Dot => 0 - 1, Shape::Box(a, b) => a + b, } }\n\nimpl Lib::Pretty for Pebble { fn show(self: Pebble) -> string { \"main pebble \" + int32_to_string(self.extra) } }\n\n",
+            "\n    let own = Shape::Box(4, 5);\n    let theirs = Lib::Shape::Box(4, 5);\n    string_println(int32_to_string(area(own)) + \" \" + int32_to_string(Lib::area(theirs)));\n    let mp = Pebble { w: 1, extra: 2 };\n    string_println(Lib::Pretty::show(mp) + \"/\" + Lib::Pretty::show(Lib::Pebble { w: 3 }));\n    let r1 = match theirs { Lib::Shape::Dot => 0, Lib::Shape::Box(a, _) => a, };\n    let r2 = match own { Shape::Dot => 0, Shape::Box(_, b) => b, };\n    let Pebble { w: pw, extra: pe } = mp;\n    string_println(int32_to_string(r1 * 1000 + r2 * 100 + pw * 10 + pe));",
+        )
+    } else {
+        ("", "")
+    };
+    let main = format!("package Main\nimport Lib\n\n{}fn main() {{\n    {};{}{}\n    ()\n}}\n", decls, body, extra, clash_body);
     if two {
         files.push(("Base/lib.gom".to_string(), base.to_string()));
     }
@@ -127,6 +156,7 @@ pub fn main(args: &util::Args) {
                     crate::sexp::esc_line(expected.as_deref().unwrap_or(""))
                 )
                 .unwrap();
+                dump_src(&id, &path, &src, &mut out);
                 dump_case(&id, &c, &mut out);
             }
             Outcome::Err(stage, msgs) => {
@@ -150,6 +180,7 @@ pub fn main(args: &util::Args) {
             match util::compile_path(&path, &src) {
                 Outcome::Ok(c) => {
                     writeln!(out, "{}\tEXPECT\t{}\t{}", id, if expected.is_some() { "out" } else { "none" }, crate::sexp::esc_line(expected.as_deref().unwrap_or(""))).unwrap();
+                    dump_src(&id, &path, &src, &mut out);
                     dump_case(&id, &c, &mut out);
                 }
                 Outcome::Err(stage, msgs) => writeln!(out, "{}\tREJECT\t{}\t{}", id, stage, crate::sexp::esc_line(&msgs.join(" | "))).unwrap(),
@@ -176,6 +207,7 @@ pub fn main(args: &util::Args) {
                 Outcome::Ok(c) => {
                     writeln!(out, "{}\tEXPECT\tnone\t", id).unwrap();
                     writeln!(out, "{}\tSRC\t{}", id, crate::sexp::esc_line(&all)).unwrap();
+                    dump_src(&id, &root.join("main.gom"), &main_src, &mut out);
                     dump_case(&id, &c, &mut out);
                 }
                 Outcome::Err(stage, msgs) => writeln!(out, "{}\tREJECT\t{}\t{}\t{}", id, stage, crate::sexp::esc_line(&msgs.join(" | ")), crate::sexp::esc_line(&all)).unwrap(),
@@ -206,6 +238,7 @@ pub fn main(args: &util::Args) {
                     )
                     .unwrap();
                     writeln!(out, "{}\tSRC\t{}", id, crate::sexp::esc_line(&src)).unwrap();
+                    dump_src(&id, &dir.join("main.gom"), &src, &mut out);
                     dump_case(&id, &c, &mut out);
                 }
                 Outcome::Err(stage, msgs) => writeln!(out, "{}\tREJECT\t{}\t{}\t{}", id, stage, crate::sexp::esc_line(&msgs.join(" | ")), crate::sexp::esc_line(&src)).unwrap(),
@@ -229,15 +262,19 @@ pub fn main(args: &util::Args) {
             max_depth: 1 + i % 3,
             effects: true,
             wildcard_arrays: i % 10 == 8,
+            src_forms: i % 4 != 1,
+            lit_field_effects: i % 20 == 7,
             nested_patterns: i % 4 == 1,
+            ..Default::default()
         };
         let (src, feats) = crate::progen::gen_program(&mut rng, cfg);
         let id = format!(
-            "gen:{}:{}{}{}",
+            "gen:{}:{}{}{}{}",
             args.seed,
             i,
             if cfg.closure_flows { ":cf" } else { "" },
-            if cfg.wildcard_arrays { ":wa" } else { "" }
+            if cfg.wildcard_arrays { ":wa" } else { "" },
+            if cfg.lit_field_effects { ":lfe" } else { "" }
         );
         match util::compile_text(&dir, &src) {
             Outcome::Ok(c) => {
@@ -246,6 +283,7 @@ pub fn main(args: &util::Args) {
                 }
                 writeln!(out, "{}\tEXPECT\tnone\t", id).unwrap();
                 writeln!(out, "{}\tSRC\t{}", id, crate::sexp::esc_line(&src)).unwrap();
+                dump_src(&id, &dir.join("main.gom"), &src, &mut out);
                 dump_case(&id, &c, &mut out);
             }
             Outcome::Err(stage, msgs) => {
